@@ -59,6 +59,9 @@ type BatchSummary struct {
 func planFor(prop, tier string, scale float64) []planEntry {
 	var out []planEntry
 	for _, fn := range plans[prop] {
+		if only := os.Getenv("VERIF_ONLY_FAMILY"); only != "" && only != fn {
+			continue // debugging aid: run one family of the plan only
+		}
 		f := families[fn]
 		n := f.Count(tier)
 		if !f.Enumerated && scale > 0 {
